@@ -271,8 +271,11 @@ func init() {
 			// the target or only in a descendant scope) must not feed
 			g.ft.Wild = []float64{0, 0.1, 0.3}[g.r.Intn(3)]
 			g.ft.PDup = 0.2
-			if g.r.Intn(4) == 0 {
+			switch g.r.Intn(8) {
+			case 0, 1:
 				g.tmpl = (*genCtx).tmplDescendantCycleGroup
+			case 2, 3:
+				g.tmpl = (*genCtx).tmplSliceMembers
 			}
 		}, Mix{Scope: 3, Provide: 12, Decorate: 1, Invoke: 9, VisStr: 0}),
 		Eval: evalSimple("C10", func(c *Checked) bool {
